@@ -425,6 +425,20 @@ theorem reload_publishes_generation_after_subnets (r : List Eff) (hr : r ∈ sig
     (k : Nat) : Consistent (run n c (r.take k)) :=
   prefixes_consistent n hn r false c (reload_round_subnets_first.1 r hr hsel) hc ha hd (fun h => by cases h) k
 
+/-- in a consistent configuration every outdated client of the API registrar (whose generation the registrar replaces
+by its own) is answered -/
+theorem outdated_client_answered (c : Cfg) (h : Consistent c) (g : Nat) (hg : g < c.apiGen) :
+    answered c .api g = true := by
+  simp only [answered, effectiveGen, if_pos hg, List.contains_eq_mem, decide_eq_true_eq]
+  exact h.1
+
+/-- … hence at every point of a reload round that replaces the selector: **requests of outdated clients that arrive
+while the reload is in progress are answered** -/
+theorem outdated_clients_answered_throughout_reload (r : List Eff) (hr : r ∈ sighupRounds) (hsel : hasSelWrite r = true)
+    (c : Cfg) (n : New) (hc : Consistent c) (hn : n.gen ∈ n.sel) (ha : c.apiGen ∈ n.sel) (hd : c.dnsGen ∈ n.sel)
+    (k : Nat) (g : Nat) (hg : g < (run n c (r.take k)).apiGen) : answered (run n c (r.take k)) .api g = true :=
+  outdated_client_answered _ (reload_publishes_generation_after_subnets r hr hsel c n hc hn ha hd k) g hg
+
 /-- the order matters: publishing first leaves, between the two steps, a generation the installed set lacks -/
 theorem publishing_first_breaks_consistency :
     ∃ (c : Cfg) (n : New) (k : Nat), Consistent c ∧ n.gen ∈ n.sel ∧ c.apiGen ∈ n.sel ∧ c.dnsGen ∈ n.sel ∧
